@@ -4,7 +4,7 @@ import Arc.Model.C14
 
 * `maskLits`      = `sqlutil.MaskStringLiterals` (quirks included: backslash before a quote continues a
                     plain literal, `$tag$`, `E'…'`, de-duplicated identifier placeholders)
-* `stripComments` = `stripSQLComments` (non-nesting, swallows ONE trailing byte after a final `*/`)
+* `stripComments` = `stripSQLComments` (non-nesting)
 * `strFindAll`    = RE2 leftmost-first matching of the five reference regexes, hand-compiled
 * `validate`      = `ValidateSQLRequest`
 * `strWorld`      = the `World` both consumers of part 1 run in
@@ -125,8 +125,9 @@ def maskLoop : Nat → Char → Str → MaskSt → MaskSt
         maskLoop n (lastOr prev orig) after (st.pushStr orig)
       else if c == '-' && headIs '-' cs then
         -- comments are copied through verbatim (64dff5c): a quote inside a comment opens nothing
-        let body := (c :: cs).takeWhile (· != '\n')
-        maskLoop n (lastOr prev body) ((c :: cs).dropWhile (· != '\n')) { st with out := body.reverse ++ st.out }
+        -- … up to a line feed OR a carriage return (17363b5)
+        let body := (c :: cs).takeWhile (fun x => x != '\n' && x != '\r')
+        maskLoop n (lastOr prev body) ((c :: cs).dropWhile (fun x => x != '\n' && x != '\r')) { st with out := body.reverse ++ st.out }
       else if c == '/' && headIs '*' cs then
         let (body, after) := blockComment (cs.length + 1) 1 (cs.drop 1)
         let whole := c :: '*' :: body
@@ -171,7 +172,7 @@ def stripLoop : Nat → Str → Str
       | _ :: r => '\n' :: stripLoop n r
     else if c == '/' && headIs '*' cs then
       match splitAt? "*/".toList [] (cs.drop 1) with
-      | some (_, after) => ' ' :: (if after.length ≤ 1 then [] else stripLoop n after)
+      | some (_, after) => ' ' :: stripLoop n after   -- 168cceb: no byte is swallowed after a closed comment
       | none => [' ']
     else c :: stripLoop n cs
 
@@ -322,11 +323,32 @@ def strFindAll (p : Pat) (t : Str) : List Match :=
       | some x => some x
       | none => cteCommaAt s
 
+/-- replace every identifier placeholder whose unquoted name is a non-empty run of word bytes by that name -/
+def exposeIdents (I : Idents) (t : Str) : Str :=
+  I.foldl (fun acc (ph, name) =>
+    if !name.isEmpty && name.all isWordC then replaceAll ph name (acc.length + 1) acc else acc) t
+
+/-- `(?i)\bread_parquet\s*\(` on `ioDenylistNormalise(sql)` -/
+def strRpCall (s : Str) : Bool :=
+  let maskInput := s.map (fun c => if c == '`' then '"' else c)
+  let (mt, ms) := maskLits maskInput
+  let ioN := stripComments (exposeIdents (identNames ms) mt)
+  rpAt '\x00' ioN
+where
+  rpAt : Char → Str → Bool
+    | _, [] => false
+    | prev, c :: cs =>
+      (!(isWordC prev) &&
+        (match eatLit "read_parquet".toList (c :: cs) with
+         | some r => headIs '(' (r.dropWhile isSpaceRe)
+         | none => false))
+      || rpAt c cs
+
 /-- the executable world. `splice` is never inspected by the permission side; the rewrite side of the
 string level is only used on the header fast path (see Props), so it is the identity here. -/
 def strWorld : World :=
   { findAll := strFindAll, splice := fun _ t _ => t, normP := strNorm, prepass := id, lower := lowerAscii,
-    simpleStarts := strSimpleStarts }
+    simpleStarts := strSimpleStarts, rpCall := strRpCall }
 
 /-! ## ValidateSQLRequest -/
 
@@ -439,11 +461,6 @@ def tablePosFirst (flag : Str → Bool) : List Str → List Bool → Bool → Op
 def tablePos (flag : Str → Bool) (toks : List Str) (armed : List Bool) (after : Bool) : Bool :=
   (tablePosFirst flag toks armed after).isSome
 
-/-- replace every identifier placeholder whose unquoted name is a non-empty run of word bytes by that name -/
-def exposeIdents (I : Idents) (t : Str) : Str :=
-  I.foldl (fun acc (ph, name) =>
-    if !name.isEmpty && name.all isWordC then replaceAll ph name (acc.length + 1) acc else acc) t
-
 def trimRightSet (set : Str) (s : Str) : Str := (s.reverse.dropWhile (fun c => set.contains c)).reverse
 
 def isGoSpace (c : Char) : Bool := c == ' ' || c == '\t' || c == '\n' || c == '\x0b' || c == '\x0c' || c == '\r'
@@ -526,9 +543,10 @@ def callAfterNewline (s : Str) : Bool :=
 /-- The decidable lexical class of `C14_partial` AFTER the round-2 repairs (/repo 64dff5c). The carve-outs for
 backslash-before-quote, quotes in comments, markers in quoted identifiers, placeholder look-alikes, non-ASCII
 bytes, the header fast path and the `with ` gate are GONE (those classes are repaired; their monitors stay
-armed). What remains: comment extents (above), the look-ahead near-miss, and the pre-pass triggers. -/
+armed); since 00bd721 the look-ahead near-miss is gone too. What remains: comment extents (above) and the
+pre-pass triggers. -/
 def inK (s _hdr : Str) : Bool :=
-  !(commentHazard (s.length + 1) (maskLits s).1) && !(callAfterNewline s) &&
+  !(commentHazard (s.length + 1) (maskLits s).1) &&
   !(Arc.Generated.C14.prepassTriggers.any (fun w => containsSub w.toList (lowerAscii s)))
 
 end Arc.C14
